@@ -6,6 +6,7 @@
   the correspondence run of `./check C03`.
 -/
 import ClairModel.Proofs.Matchers
+import ClairModel.Gen.Matchers
 
 namespace ClairModel.Props.C03
 open ClairModel ClairModel.Order ClairModel.OrderC03 ClairModel.VerCommon ClairModel.Matchers
@@ -346,6 +347,146 @@ theorem vulnerable_iff_lt_alpine (p : Pkg) (v : Vuln) (hF : v.fixed ≠ []) (hF0
     (h1 : VerApk.valid p.version = true) (h2 : VerApk.valid v.fixed = true) :
     vulnerableAlpine p v = .ok (decide (VerApk.compare p.version v.fixed = .lt)) := by
   simp [vulnerableAlpine, hF, hF0, h1, h2]
+
+/-! ### python, ruby, java: url-encoded introduced / fixed / lastAffected ranges
+
+Stated once for any version scheme `S` (parser + comparator): the three
+`Vulnerable` functions are the same text, which `Gen.Matchers` re-checks below
+(`gen_osv_matchers_alike`). -/
+
+/-- An advisory with empty `FixedInVersion` is reported. -/
+theorem no_fix_osv {V : Type} (S : Scheme V) (p : Pkg) (v : Vuln) (hF : v.fixed = []) :
+    vulnerableOsv S p v = .ok true := by
+  simp [vulnerableOsv, hF]
+
+/-- The range is honoured at both ends: with the package version, the query
+    and every bound that is looked at parsable, the package is reported iff
+    `introduced ≤ v` (closed; absent = no lower bound) and `v < fixed` (open) or,
+    when no fix is named, `v ≤ lastAffected` (closed) or, when neither is named,
+    unconditionally. -/
+theorem range_honoured_osv {V : Type} (S : Scheme V) (p : Pkg) (v : Vuln) (rv : V) (q : List (Str × Str))
+    (intro fix la : Option V)
+    (hF : v.fixed ≠ []) (hp : S.parse p.version = some rv) (hq : parseQuery v.fixed = some q)
+    (hi : Bound S (qget q kIntroduced) intro) (hf : Bound S (qget q kFixed) fix)
+    (hl : fix = none → Bound S (qget q kLastAffected) la) :
+    vulnerableOsv S p v = .ok (inRange S rv intro fix la) :=
+  vulnerableOsv_eq S p v rv q intro fix la hF hp hq hi hf hl
+
+/-- A package version that does not parse, or a `FixedInVersion` that is not a
+    well-formed query string, is an error, not a verdict. -/
+theorem unparsable_is_error_osv {V : Type} (S : Scheme V) (p : Pkg) (v : Vuln) (hF : v.fixed ≠ [])
+    (h : S.parse p.version = none ∨ parseQuery v.fixed = none) : vulnerableOsv S p v = .err := by
+  unfold vulnerableOsv
+  simp only [hF, if_false]
+  rcases h with h | h
+  · simp [h]
+  · cases S.parse p.version <;> simp [h]
+
+/-- Monotone down to the introduced bound, for every scheme whose comparison
+    is a total preorder: if `v` is reported, so is every `v' ≤ v` that is not
+    below `introduced`.  (pep440 and gem comparisons are total preorders — C12;
+    Maven's is not transitive — C12 finding maven-intransitive — so for java
+    this holds on the fragment where `hS` does.) -/
+theorem monotone_osv {V : Type} (S : Scheme V) (hS : TotalPre S.cmp) (p p' : Pkg) (v : Vuln) (rv rv' : V)
+    (q : List (Str × Str)) (intro fix la : Option V)
+    (hF : v.fixed ≠ []) (hp : S.parse p.version = some rv) (hp' : S.parse p'.version = some rv')
+    (hq : parseQuery v.fixed = some q)
+    (hi : Bound S (qget q kIntroduced) intro) (hf : Bound S (qget q kFixed) fix)
+    (hl : fix = none → Bound S (qget q kLastAffected) la)
+    (h : vulnerableOsv S p v = .ok true) (hle : S.cmp rv' rv ≠ .gt)
+    (hin : ∀ iv, intro = some iv → S.cmp rv' iv ≠ .lt) :
+    vulnerableOsv S p' v = .ok true := by
+  rw [vulnerableOsv_eq S p v rv q intro fix la hF hp hq hi hf hl] at h
+  rw [vulnerableOsv_eq S p' v rv' q intro fix la hF hp' hq hi hf hl]
+  simp only [Out.ok.injEq] at h ⊢
+  exact inRange_mono S hS h hle hin
+
+/-- `url.ParseQuery` of what the OSV updater writes (`url.Values.Encode`):
+    `fixed=F&introduced=I` decodes to those two values. -/
+example : (parseQuery "fixed=1.2.3&introduced=1.0%2Brc1".toList).map
+    (fun q => (qget q kIntroduced, qget q kFixed, qget q kLastAffected)) =
+    some ("1.0+rc1".toList, "1.2.3".toList, []) := by decide
+
+/-! ### The database-side range test (gobin, nodejs; pre-filter of rhcc) -/
+
+/-- `Version.Compare` (kinds as strings, then the ten components) is a total preorder. -/
+theorem nversion_cmp_totalPre : TotalPre NVersion.compare := nversion_compare_totalPre
+
+/-- `Range.Contains r v ↔ lower ≤ v ∧ v < upper`: closed below, open above. -/
+theorem range_contains_iff (r : NRange) (v : NVersion) :
+    rangeContains (some r) v = true ↔ (r.lower.compare v ≠ .gt ∧ v.compare r.upper = .lt) := by
+  simp only [rangeContains, Bool.and_eq_true, decide_eq_true_eq]
+  have hs := nversion_compare_totalPre.swap r.upper v
+  cases hu : r.upper.compare v <;> simp [hu, Ordering.swap] at hs <;> simp [hs]
+
+/-- A nil range contains nothing. -/
+theorem range_nil_contains_nothing (v : NVersion) : rangeContains none v = false := rfl
+
+/-- Membership is downward closed down to the lower bound. -/
+theorem range_contains_mono (r : NRange) (v v' : NVersion) (h : rangeContains (some r) v = true)
+    (hle : v'.compare v ≠ .gt) (hlo : r.lower.compare v' ≠ .gt) : rangeContains (some r) v' = true := by
+  rw [range_contains_iff] at h ⊢
+  exact ⟨hlo, nversion_compare_totalPre.lt_of_le_of_lt hle h.2⟩
+
+/-- gobin, nodejs (flags regenerated from the sources): the controller
+    returns exactly what the database-side range test lets through; the no-op
+    `Vulnerable` is never consulted. -/
+theorem dbside_iff_gobin (hit : Bool) (p : Pkg) (v : Vuln) :
+    controllerKeeps Gen.Matchers.gobin.versionFilter Gen.Matchers.gobin.authoritative hit (vulnerableNoop p v)
+      = .ok hit := by
+  cases hit <;> rfl
+
+theorem dbside_iff_nodejs (hit : Bool) (p : Pkg) (v : Vuln) :
+    controllerKeeps Gen.Matchers.nodejs.versionFilter Gen.Matchers.nodejs.authoritative hit (vulnerableNoop p v)
+      = .ok hit := by
+  cases hit <;> rfl
+
+/-- rhcc: the range test only pre-filters (not authoritative); a hit is still
+    subject to `Vulnerable`. -/
+theorem dbside_prefilter_rhcc (hit : Bool) (p : Pkg) (v : Vuln) :
+    controllerKeeps Gen.Matchers.rhcc.versionFilter Gen.Matchers.rhcc.authoritative hit (vulnerableRhcc p v)
+      = .ok (hit && decide (VerRpm.cmpStr p.version v.fixed = .lt)) := by
+  cases hit <;> simp [controllerKeeps, Gen.Matchers.rhcc, vulnerableRhcc]
+
+/-- Every other matcher is decided by its `Vulnerable` alone. -/
+theorem no_version_filter_elsewhere :
+    (Gen.Matchers.all.filter (·.versionFilter)).map (·.id) = ["rhcc", "gobin", "nodejs"] ∧
+    (Gen.Matchers.all.filter (·.authoritative)).map (·.id) = ["gobin", "nodejs"] ∧
+    ∀ (hit : Bool) (o : Out), controllerKeeps false false hit o = o := by
+  refine ⟨by decide, by decide, ?_⟩
+  intro hit o; cases hit <;> rfl
+
+/-! ### What the sources say (regenerated facts, Tie A) -/
+
+/-- The comparison each `Vulnerable` applies to the comparator's result:
+    strictly-less with a fix (`== version.LESS`, `LessThan`, `< 0`),
+    not-greater for the last-affected forms (`!= version.GREATER`, `<= 0`). -/
+theorem gen_boundary_operators :
+    (∀ m ∈ [Gen.Matchers.aws, Gen.Matchers.oracle, Gen.Matchers.photon, Gen.Matchers.suse, Gen.Matchers.rhel],
+       m.cmpOps = ["!= version.GREATER", "== version.LESS"]) ∧
+    (∀ m ∈ [Gen.Matchers.alpine, Gen.Matchers.debian, Gen.Matchers.ubuntu, Gen.Matchers.rhcc],
+       m.cmpOps = ["LessThan"]) ∧
+    (∀ m ∈ [Gen.Matchers.python, Gen.Matchers.ruby, Gen.Matchers.java],
+       m.cmpOps = ["< 0", "< 0", "<= 0"]) ∧
+    Gen.Matchers.gobin.cmpOps = [] ∧ Gen.Matchers.nodejs.cmpOps = [] := by
+  decide
+
+/-- The sentinels, the "unfixed" bound and the query keys in the sources are the model's. -/
+theorem gen_literals :
+    Gen.Matchers.alpine.vulnLits = ["", "0"] ∧ Gen.Matchers.debian.vulnLits = ["", "0"] ∧
+    Gen.Matchers.ubuntu.vulnLits = ["", "0"] ∧
+    Gen.Matchers.aws.vulnLits = ["", String.ofList unfixedBound] ∧
+    Gen.Matchers.rhel.vulnLits = ["", String.ofList unfixedBound] ∧
+    (∀ m ∈ [Gen.Matchers.oracle, Gen.Matchers.photon, Gen.Matchers.suse], m.vulnLits = [""]) ∧
+    (∀ m ∈ [Gen.Matchers.python, Gen.Matchers.ruby, Gen.Matchers.java],
+       m.vulnLits = ["", String.ofList kIntroduced, "", String.ofList kFixed, String.ofList kLastAffected, "", ""]) := by
+  decide
+
+/-- python, ruby and java apply the same operators to the same keys. -/
+theorem gen_osv_matchers_alike :
+    Gen.Matchers.python.cmpOps = Gen.Matchers.ruby.cmpOps ∧ Gen.Matchers.ruby.cmpOps = Gen.Matchers.java.cmpOps ∧
+    Gen.Matchers.python.vulnLits = Gen.Matchers.ruby.vulnLits ∧ Gen.Matchers.ruby.vulnLits = Gen.Matchers.java.vulnLits := by
+  decide
 
 /-- The hypotheses above are satisfiable: 1.0-1 is below 1.0-2. -/
 example : vulnerableAws { version := "1.0-1".toList } { fixed := "1.0-2".toList } = .ok true := by decide
